@@ -146,7 +146,20 @@ func includeFun(t *template.Template, includedNames map[string]int) func(string,
 // As does 'tpl', so that nested calls to 'tpl' see the templates
 // defined by their enclosing contexts.
 func tplFun(parent *template.Template, includedNames map[string]int, strict bool) func(string, interface{}) (string, error) {
+	return tplFunNested(parent, includedNames, strict, new(int))
+}
+
+// tplFunNested is tplFun with the nesting depth of tpl calls shared between the
+// tpl functions injected into nested templates, so that text which passes itself
+// to tpl again ends in an error like a self-including template does.
+func tplFunNested(parent *template.Template, includedNames map[string]int, strict bool, depth *int) func(string, interface{}) (string, error) {
 	return func(tpl string, vals interface{}) (string, error) {
+		if *depth > recursionMaxNums {
+			return "", errors.Wrapf(fmt.Errorf("unable to execute template"), "tpl function is nested more than %d levels deep", recursionMaxNums)
+		}
+		*depth++
+		defer func() { *depth-- }()
+
 		t, err := parent.Clone()
 		if err != nil {
 			return "", errors.Wrapf(err, "cannot clone template")
@@ -165,7 +178,7 @@ func tplFun(parent *template.Template, includedNames map[string]int, strict bool
 		// this lets any 'define's inside tpl be 'include'd.
 		t.Funcs(template.FuncMap{
 			"include": includeFun(t, includedNames),
-			"tpl":     tplFun(t, includedNames, strict),
+			"tpl":     tplFunNested(t, includedNames, strict, depth),
 		})
 
 		// We need a .New template, as template text which is just blanks
